@@ -52,6 +52,20 @@ ZIGZAG = {
 }
 
 
+SHARE = {
+    "name": "DEP_SHARE", "backend": "kani", "crate": "share", "use_repo_lock": True,
+    "raw": ["impl:Share for InnerPointShareG1", "impl:Share for InnerPointShareG2"], "prepend": "use super::*;",
+    "harnesses": {
+        "array_share_49": {"group": "array_share", "function": "<[u8; 49] as vsss_rs::Share>", "repo_location": "dependency vsss-rs (Cargo.lock)", "obligation": "L-VSSS accessors at L = 49: identifier = byte 0, value = bytes 1.., identifier_mut writes byte 0 only, value_mut stores exactly L-1 bytes and refuses fewer, the empty share is zero"},
+        "array_share_97": {"group": "array_share", "function": "<[u8; 97] as vsss_rs::Share>", "repo_location": "dependency vsss-rs (Cargo.lock)", "obligation": "the same at L = 97"},
+        "inner_point_share_g1_delegates": {"group": "inner_point_share", "function": "<InnerPointShareG1 as Share>", "repo_location": "src/lib.rs", "obligation": "blsful's 49-byte share container (extracted unchanged) behaves as its inner array share: identifier, value, identifier_mut, value_mut, empty share"},
+        "inner_point_share_g2_delegates": {"group": "inner_point_share", "function": "<InnerPointShareG2 as Share>", "repo_location": "src/lib.rs", "obligation": "the same for the 97-byte container"},
+    },
+    "bound_note": "complete at the two sizes blsful uses (fully symbolic arrays; one symbolic position per quantified byte)",
+    "trusted": ["Kani 0.68 / CBMC 6.11", "the struct definitions InnerPointShareG1([u8; 49]) / InnerPointShareG2([u8; 97]) are restated in the harness crate without their serde / zeroize derives; a size other than 49 / 97 in /repo would not type-check against the extracted impls"],
+}
+
+
 def leaf(*relevant):
     d = dict(LEAF)
     d["relevant"] = list(relevant)
@@ -82,7 +96,7 @@ PROPS = {
         "hypotheses": [],
     },
     "C08": {
-        "units": [gen("C08", props=["lib_shares.rs", "C08.rs"])],
+        "units": [SHARE, gen("C08", props=["lib_shares.rs", "C08.rs"])],
         "level_text": "Deductive proof (Verus) of the blsful side of threshold signing: partial signatures and public-key shares are the share scalar times H(m) resp. G, carry the identifier, are bound to the scheme, verify against the participant's own key share and no other; every recombination wrapper forwards all shares to the combiner, refuses mixed schemes and re-tags with the common scheme; recombination in the exponent is linear (proved from the combiner's structure), so shares of scalar shares that recombine to the key recombine to exactly the whole-key signature / public key. That t of n shares of a split interpolate to the key is vsss-rs (assumed, L-LAGRANGE).",
         "trusted_base": TB_ALGEBRA + ["L-VSSS: Share accessors and checked decoding; combine_shares{,_group} = Err for < 2 shares / zero id / duplicate id / undecodable value, else sum_i basis(ids,i)*y_i (model read from vsss-rs 4.3.8 set.rs; NOT verified)", "L-LAGRANGE: shamir::split_secret returns n shares with ids 1..n for 2<=t<=n<=255 and any >= t distinct ones interpolate to the secret (axiom_interpolation; NOT verified)", "L-STD: X.iter().skip(k).all(f) calls f on the elements from position k on (iter_skip_all, E15)"],
         "hypotheses": [X_NONID],
@@ -135,7 +149,7 @@ PROPS = {
         "not_decided": ["'decryption under a different secret key never returns the original message' (statistical statement about SHAKE128 output)"],
     },
     "C12": {
-        "units": [gen("C12", props=["lib_shares.rs", "C12.rs"])],
+        "units": [SHARE, gen("C12", props=["lib_shares.rs", "C12.rs"])],
         "trusted_base": TB_ALGEBRA + ["L-VSSS: Share accessors (identifier, value bytes, checked group/field decoding); combiner model sum_i basis(ids,i)*y_i (see C08); L-LAGRANGE is used only as the hypothesis 'the scalar shares recombine to the key'"],
         "hypotheses": [X_NONID],
         "not_decided": ["'fewer than t shares never return the original message' (information-theoretic / statistical)", "that t of n scalar shares recombine to the key is the hypothesis combined(f) == Some(sk) of c12_shares_decrypt_like_the_whole_key (L-LAGRANGE, vsss-rs)"],
